@@ -87,6 +87,9 @@ class C16(Prop):
             if rng.random() < 0.5:
                 c['cfg']['extra_signal'] = True      # the collection also holds a signal over a different universe
                 c['stream'] += ':mixed-universes'
+            if c['cfg']['universe'][0] == 'static' and rng.random() < 0.4:
+                c['cfg']['signal_start_shift'] = rng.choice([3, 14, 40])       # signals built with a later start_dt of their own
+                c['stream'] += ':late-signal-start'
             c['session'] = True
             out.append(c)
         return out
